@@ -62,10 +62,24 @@ type KnownFinding struct {
 	// from a failing case (never from a seed).
 	Trigger string `json:"trigger"`
 	Mode    string `json:"mode"`
-	What    string `json:"what"`
-	Witness string `json:"witness,omitempty"`
-	Commit  string `json:"commit,omitempty"`
-	Note    string `json:"note,omitempty"`
+	// Modes lists further failure modes of the same root cause on the same trigger.
+	Modes   []string `json:"modes,omitempty"`
+	What    string   `json:"what"`
+	Witness string   `json:"witness,omitempty"`
+	Commit  string   `json:"commit,omitempty"`
+	Note    string   `json:"note,omitempty"`
+}
+
+func (k *KnownFinding) hasMode(m string) bool {
+	if k.Mode == m {
+		return true
+	}
+	for _, x := range k.Modes {
+		if x == m {
+			return true
+		}
+	}
+	return false
 }
 
 // Main is the entry point of every check binary.
@@ -238,7 +252,7 @@ func (c *Ctx) Fail(trigger, mode string, replay any) bool {
 	c.mu.Lock()
 	defer c.mu.Unlock()
 	for _, k := range c.known {
-		if k.Status == "known" && k.Trigger == trigger && k.Mode == mode {
+		if k.Status == "known" && k.Trigger == trigger && k.hasMode(mode) {
 			c.knownHit[k.ID] = k.What
 			if k.Witness != "" && os.Getenv("VERIF_WRITE_WITNESS") != "" {
 				// development aid: materialise the pinned witness of a listed finding
@@ -265,6 +279,19 @@ func (c *Ctx) Fail(trigger, mode string, replay any) bool {
 	b, _ := json.MarshalIndent(map[string]any{"property": c.ID, "trigger": trigger, "mode": mode, "case": replay}, "", " ")
 	os.WriteFile(p, b, 0o644)
 	c.violations = append(c.violations, violation{Sig: sig, Replay: p})
+	return false
+}
+
+// IsKnown reports whether (trigger, mode) is the signature of a listed known finding,
+// without recording anything (used to decide how much corroboration a failure needs).
+func (c *Ctx) IsKnown(trigger, mode string) bool {
+	c.mu.Lock()
+	defer c.mu.Unlock()
+	for _, k := range c.known {
+		if k.Status == "known" && k.Trigger == trigger && k.hasMode(mode) {
+			return true
+		}
+	}
 	return false
 }
 
